@@ -5,6 +5,7 @@ package slog
 
 import (
 	"io"
+	"os"
 	"time"
 )
 
@@ -14,6 +15,8 @@ import (
 // the clauses call. Nothing in here runs in a normal build or in the tests.
 
 // ghost is specification-only state.
+var _ = os.Stdout
+
 var ghost struct {
 	debugMode bool // what states.Env().GetDebugMode() returns (process-wide debug switch)
 	emits     int  // number of records that entered (*Entry).logContext
@@ -121,10 +124,17 @@ func specInterrupts() bool {
 //@   trusted
 
 //@ func (*Entry).collectArgs
-//@   trusted
-//@   assigns everything
-//@   noghost
-//@   keeps PrintCtx.off, PrintCtx.lvl
+//@   props C02 C07
+//@   auto
+//@   requires !isnil(ctx)
+
+//@ func (*Entry).walkParentAttrs
+//@   props C02 C07
+//@   auto
+
+//@ func argsToAttrs
+//@   props C02 C07
+//@   auto
 
 //@ func (*Entry).logContext
 //@   props C01 C02 C12 C13
@@ -1718,6 +1728,147 @@ func specWrapped(x LogWriter, w io.Writer) bool {
 //@   loop 1 invariant [C03.scan] rangeindex >= -1 && (rangeindex < len(s.Error) || rangeindex == -1) && unchanged(s.Error) && forall(j, 0, rangeindex+1, !specDenotes(s.Error[j], w))
 //@
 
+// ---- C03: leveled writers, resets and the Entry wrappers (generated by tools/gen_c03.py)
+
+//@ func (*dualWriter).AddLevelWriter
+//@   props C03
+//@   requires s != nil
+//@   assigns s.leveled, mapof(s.leveled), s.leveled[lvl][:]
+//@   ensures [C03.addlevel-nil] implies(isnil(w), unchanged(s.leveled))
+//@   ensures [C03.addlevel] implies(!isnil(w), s.leveled != nil && has(s.leveled, lvl) && len(s.leveled[lvl]) == old(len(s.leveled[lvl])) + 1 && specWrapped(s.leveled[lvl][len(s.leveled[lvl])-1], w) && forall(j, 0, old(len(s.leveled[lvl])), s.leveled[lvl][j] == old(s.leveled[lvl][j])))
+//@   ensures [C03.addlevel-others] implies(!isnil(w), forall(k, implies(k != lvl, has(s.leveled, Level(k)) == old(has(s.leveled, Level(k))) && s.leveled[Level(k)] == old(s.leveled[Level(k)]))))
+//@
+//@ func (*dualWriter).RemoveLevelWriter
+//@   props C03
+//@   requires s != nil
+//@   assigns s.leveled, mapof(s.leveled), s.leveled[lvl][:]
+//@   ensures [C03.removelevel-nil] implies(isnil(w), unchanged(s.leveled))
+//@   ensures [C03.removelevel-others] implies(!isnil(w), forall(k, implies(k != lvl, has(s.leveled, Level(k)) == old(has(s.leveled, Level(k))) && s.leveled[Level(k)] == old(s.leveled[Level(k)]))))
+//@   ensures [C03.removelevel-none] implies(!isnil(w) && !exists(k, 0, old(len(s.leveled[lvl])), specDenotes(old(s.leveled[lvl][k]), w)), len(s.leveled[lvl]) == old(len(s.leveled[lvl])) && forall(j, 0, len(s.leveled[lvl]), s.leveled[lvl][j] == old(s.leveled[lvl][j])))
+//@   ensures [C03.removelevel] forall(i, 0, old(len(s.leveled[lvl])), implies(!isnil(w) && specDenotes(old(s.leveled[lvl][i]), w) && forall(j, 0, i, !specDenotes(old(s.leveled[lvl][j]), w)), len(s.leveled[lvl]) == old(len(s.leveled[lvl])) - 1 && forall(j, 0, i, s.leveled[lvl][j] == old(s.leveled[lvl][j])) && forall(j, i, len(s.leveled[lvl]), s.leveled[lvl][j] == old(s.leveled[lvl][j+1]))))
+//@   loop 1 invariant [C03.scan] forall(j, 0, rangeindex+1, !specDenotes(lw[j], w)) && lw == old(s.leveled[lvl]) && forall(j, 0, len(lw), lw[j] == old(s.leveled[lvl][j])) && forall(k, implies(k != lvl, has(s.leveled, Level(k)) == old(has(s.leveled, Level(k))) && s.leveled[Level(k)] == old(s.leveled[Level(k)]))) && has(s.leveled, lvl) && s.leveled[lvl] == lw
+
+//@ func (*dualWriter).ResetLevelWriter
+//@   props C03
+//@   requires s != nil
+//@   assigns mapof(s.leveled)
+//@   ensures [C03.resetlevel] !has(s.leveled, lvl) && forall(k, implies(k != lvl, has(s.leveled, Level(k)) == old(has(s.leveled, Level(k))) && s.leveled[Level(k)] == old(s.leveled[Level(k)])))
+//@
+//@ func (*dualWriter).ResetLevelWriters
+//@   props C03
+//@   requires s != nil
+//@   assigns s.leveled
+//@   ensures [C03.resetlevels] s.leveled == nil
+//@
+//@ func (*dualWriter).Clear
+//@   props C03
+//@   requires s != nil
+//@   assigns s.Normal, s.Error
+//@   ensures [C03.clear] len(s.Normal) == 0 && len(s.Error) == 0
+//@
+//@ func (*dualWriter).Reset
+//@   props C03
+//@   requires s != nil
+//@   assigns s.Normal, s.Error, s.leveled
+//@   ensures [C03.reset] result == s && s.leveled == nil && len(s.Normal) == 1 && len(s.Error) == 1
+//@   ensures [C03.reset-std] typeis(s.Normal[0], *filewr) && dyn(s.Normal[0], *filewr) != nil && dyn(s.Normal[0], *filewr).File == os.Stdout && typeis(s.Error[0], *filewr) && dyn(s.Error[0], *filewr) != nil && dyn(s.Error[0], *filewr).File == os.Stderr
+//@
+//@ func newDualWriter
+//@   props C03
+//@   ensures [C03.new] result != nil && fresh(result) && result.leveled == nil && len(result.Normal) == 1 && len(result.Error) == 1
+//@   ensures [C03.new-std] typeis(result.Normal[0], *filewr) && dyn(result.Normal[0], *filewr).File == os.Stdout && typeis(result.Error[0], *filewr) && dyn(result.Error[0], *filewr).File == os.Stderr
+//@
+//@ func (*Entry).SetWriter
+//@   props C03 C10
+//@   requires s != nil
+//@   assigns everything
+//@   maypanic
+//@   ensures [C03.C10.ret] result == s && s.writer != nil && (s.writer == old(s.writer) || (old(s.writer) == nil && fresh(s.writer)))
+//@   at call (*dualWriter).SetWriter assert [C03.forward] callee.s == s.writer && callee.w == wr
+//@
+//@ func (*Entry).AddWriter
+//@   props C03 C10
+//@   requires s != nil
+//@   assigns everything
+//@   maypanic
+//@   ensures [C03.C10.ret] result == s && s.writer != nil && (s.writer == old(s.writer) || (old(s.writer) == nil && fresh(s.writer)))
+//@   at call (*dualWriter).Add assert [C03.forward] callee.s == s.writer && callee.w == wr
+//@
+//@ func (*Entry).SetErrorWriter
+//@   props C03 C10
+//@   requires s != nil
+//@   assigns everything
+//@   maypanic
+//@   ensures [C03.C10.ret] result == s && s.writer != nil && (s.writer == old(s.writer) || (old(s.writer) == nil && fresh(s.writer)))
+//@   at call (*dualWriter).SetErrorWriter assert [C03.forward] callee.s == s.writer && callee.w == wr
+//@
+//@ func (*Entry).AddErrorWriter
+//@   props C03 C10
+//@   requires s != nil
+//@   assigns everything
+//@   maypanic
+//@   ensures [C03.C10.ret] result == s && s.writer != nil && (s.writer == old(s.writer) || (old(s.writer) == nil && fresh(s.writer)))
+//@   at call (*dualWriter).AddErrorWriter assert [C03.forward] callee.s == s.writer && callee.w == wr
+//@
+//@ func (*Entry).AddLevelWriter
+//@   props C03 C10
+//@   requires s != nil
+//@   assigns everything
+//@   maypanic
+//@   ensures [C03.C10.ret] result == s && s.writer != nil && (s.writer == old(s.writer) || (old(s.writer) == nil && fresh(s.writer)))
+//@   at call (*dualWriter).AddLevelWriter assert [C03.forward] callee.s == s.writer && callee.w == w && callee.lvl == lvl
+//@
+//@ func (*Entry).RemoveLevelWriter
+//@   props C03 C10
+//@   requires s != nil
+//@   assigns everything
+//@   maypanic
+//@   ensures [C03.C10.ret] result == s && s.writer != nil && (s.writer == old(s.writer) || (old(s.writer) == nil && fresh(s.writer)))
+//@   at call (*dualWriter).RemoveLevelWriter assert [C03.forward] callee.s == s.writer && callee.w == w && callee.lvl == lvl
+//@
+//@ func (*Entry).ResetLevelWriter
+//@   props C03 C10
+//@   requires s != nil
+//@   assigns everything
+//@   maypanic
+//@   ensures [C03.C10.ret] result == s && s.writer != nil && (s.writer == old(s.writer) || (old(s.writer) == nil && fresh(s.writer)))
+//@   at call (*dualWriter).ResetLevelWriter assert [C03.forward] callee.s == s.writer && callee.lvl == lvl
+//@
+//@ func (*Entry).ResetLevelWriters
+//@   props C03 C10
+//@   requires s != nil
+//@   assigns everything
+//@   maypanic
+//@   ensures [C03.C10.ret] result == s && s.writer != nil && (s.writer == old(s.writer) || (old(s.writer) == nil && fresh(s.writer)))
+//@   at call (*dualWriter).ResetLevelWriters assert [C03.forward] callee.s == s.writer && true
+//@
+//@ func (*Entry).ResetWriters
+//@   props C03 C10
+//@   requires s != nil
+//@   assigns everything
+//@   maypanic
+//@   ensures [C03.C10.ret] result == s && s.writer != nil && (s.writer == old(s.writer) || (old(s.writer) == nil && fresh(s.writer)))
+//@   at call (*dualWriter).Reset assert [C03.forward] callee.s == s.writer && true
+//@
+//@ func (*Entry).RemoveWriter
+//@   props C03 C10
+//@   requires s != nil
+//@   assigns everything
+//@   maypanic
+//@   ensures [C03.C10.ret] result == s && s.writer == old(s.writer)
+//@   ensures [C03.remove-fresh] implies(old(s.writer) == nil, unchanged(s.writer))
+//@   at call (*dualWriter).Remove assert [C03.forward] callee.s == s.writer && callee.w == wr && s.writer != nil
+//@
+//@ func (*Entry).RemoveErrorWriter
+//@   props C03 C10
+//@   requires s != nil
+//@   assigns everything
+//@   maypanic
+//@   ensures [C03.C10.ret] result == s && s.writer == old(s.writer)
+//@   ensures [C03.remove-fresh] implies(old(s.writer) == nil, unchanged(s.writer))
+//@   at call (*dualWriter).RemoveErrorWriter assert [C03.forward] callee.s == s.writer && callee.w == wr && s.writer != nil
+//@
+
 // ---------------------------------------------------------------- C02 / C03 / C13 delivery
 
 // specRoute is the routing rule of property C03 on one writer configuration.
@@ -1929,16 +2080,9 @@ func specTellable(m LogWriter) bool {
 //@   requires !isnil(ctx)
 
 
+
 // ---- generated by /verif/tools/gen_auto.py: synthesized contracts for the no-panic sweep of printImpl's call tree
 //@ func convertLevelToLogSlog
-//@   props C02
-//@   auto
-
-//@ func (*Entry).walkParentAttrs
-//@   props C02
-//@   auto
-
-//@ func argsToAttrs
 //@   props C02
 //@   auto
 
